@@ -771,7 +771,13 @@ fn exec_res(line: &str, t: &[&str], rec: &mut Recorder) {
         return;
     };
     let case = Arc::new(case);
-    let homog = homogeneous(&case);
+    // records with TTL 0 make name-server pools expire at once (NameServerPool::ttl_expired); the model has no
+    // pool expiry (checks/C19.json), so such internets are implementation-vs-oracle only
+    let ttl0 = Truth::responses(&case).iter().any(|(_, _, r)| r.all().any(|x| x.ttl == 0 || matches!(x.data, RD::S(0))));
+    let homog = homogeneous(&case) && !ttl0;
+    if ttl0 {
+        rec.stat("ttl-zero-records(impl-vs-oracle only)");
+    }
     let res = run_with_watchdog(case.clone());
     let outs = match res {
         Ok(o) => o,
@@ -789,7 +795,9 @@ fn exec_res(line: &str, t: &[&str], rec: &mut Recorder) {
         rec.case(line.to_string(), out_line)
     } else {
         rec.impl_only += 1;
-        rec.stat("pools.heterogeneous(impl-vs-oracle only)");
+        if !ttl0 {
+            rec.stat("pools.heterogeneous(impl-vs-oracle only)");
+        }
         // keep the observed summary in the stats sample but give the model no side to compare
         rec.case(line.to_string(), "~".to_string())
     };
@@ -1568,6 +1576,57 @@ pub mod gen {
                 c.table.insert((gx, q1, t), Resp { rcode: 0, aa: true, ans: if t == 1 { vec![evil_rec.clone()] } else { vec![] }, auth: vec![], add: vec![] });
             }
             out.push(("glueless-ns-address-with-foreign-owner", c));
+        }
+        // 12c. the address of a glueless NS host is already in the response cache (asked for by an earlier query)
+        {
+            let mut w = base(false);
+            let gh = w.std_group(1);
+            w.zone("hoster.net.", gh, &["ns.hoster.net."], true);
+            let ge = w.std_group(1);
+            w.zone("example.com.", ge, &["dns.hoster.net."], false);
+            let r = w.a("www.example.com.", v4(44, 1, 1, 1));
+            w.add_auto(r);
+            w.finish();
+            let q0 = w.intern("dns.hoster.net.");
+            let q1 = w.intern("www.example.com.");
+            let roots = w.group_ips[0].clone();
+            out.push(("cached-address-used-as-glue", w.case(roots, vec![(q0, 1), (q1, 1)], 24, 24)));
+        }
+        // 12d. wildcard owner name, mixed-case query, DS query (parent side), ANY and CNAME queries
+        {
+            let mut w = base(false);
+            let ge = w.std_group(2);
+            w.zone("example.com.", ge, &["ns1.example.com.", "ns2.example.com."], true);
+            let gs = w.std_group(1);
+            w.zone("sub.example.com.", gs, &["ns.sub.example.com."], true);
+            let r = w.a("*.example.com.", v4(44, 1, 1, 9));
+            w.add_auto(r);
+            let r = w.a("www.example.com.", v4(44, 1, 1, 1));
+            w.add_auto(r);
+            let r = w.cname("alias.example.com.", "www.sub.example.com.");
+            w.add_auto(r);
+            let r = w.a("www.sub.example.com.", v4(44, 1, 1, 2));
+            w.add_auto(r);
+            w.finish();
+            let qw = w.intern("*.example.com.");
+            let qu = w.intern_name(Name::from_ascii("WWW.Example.COM.").unwrap());
+            let qs = w.intern("sub.example.com.");
+            let qa = w.intern("alias.example.com.");
+            let roots = w.group_ips[0].clone();
+            out.push(("wildcard-mixed-case-ds-any-cname", w.case(roots, vec![(qw, 1), (qu, 1), (qs, 43), (qa, 255), (qa, 5), (qa, 1), (qa, 1)], 24, 24)));
+        }
+        // 12e. records with TTL 0 (nothing is kept in the caches)
+        {
+            let mut w = base(false);
+            w.ttl = 0;
+            let ge = w.std_group(1);
+            w.zone("zero.com.", ge, &["ns.zero.com."], true);
+            let r = w.a("www.zero.com.", v4(44, 1, 1, 1));
+            w.add_auto(r);
+            w.finish();
+            let q1 = w.intern("www.zero.com.");
+            let roots = w.group_ips[0].clone();
+            out.push(("ttl-zero", w.case(roots, vec![(q1, 1), (q1, 1)], 24, 24)));
         }
         // 13. negative answer carrying out-of-bailiwick authority data
         {
